@@ -209,9 +209,60 @@ def _empty(shape, dtype=float, **k):
     return np.empty(shape, dtype=dtype, **k)
 
 
+class SymRepeat:
+    """np.repeat(values, counts) with symbolic integer counts: a multiset whose length depends on the data.
+    Only what the library does with it is supported: `.size` and `np.median`."""
+    ndim = 1
+
+    def __init__(self, values, counts):
+        self.values = [Q.lift(v) for v in np.asarray(values, dtype=object).reshape(-1)]
+        self.counts = [Q.lift(c) for c in np.asarray(counts, dtype=object).reshape(-1)]
+        if len(self.values) != len(self.counts):
+            raise Unsupported("np.repeat: values and counts of different length")
+
+    @property
+    def size(self):
+        tot = Q.lift(0)
+        for c in self.counts:
+            tot = tot + c
+        return tot
+
+    def median(self):
+        """median of the multiset: the middle element of the sorted expansion, or the mean of the two middle ones"""
+        import z3 as _z3
+        from . import scalar as _S
+        pairs = []
+        for v, c in zip(self.values, self.counts):        # insertion sort by value (forks when values are symbolic)
+            k = 0
+            while k < len(pairs) and bool(pairs[k][0] <= v):
+                k += 1
+            pairs.insert(k, (v, c))
+        n = self.size
+        if bool(n == 0):
+            return Q.NAN
+        ni = _z3.ToInt(_S.zr(n.n)) if not n.is_const else None
+        even = (int(n.const_value()) % 2 == 0) if ni is None else _S.HOOKS.branch(ni % 2 == 0)
+        # 1-based positions of the middle elements
+        lo_pos = n / 2 if even else (n + 1) / 2
+        hi_pos = n / 2 + 1 if even else lo_pos
+
+        def at(pos):
+            cum = Q.lift(0)
+            for v, c in pairs[:-1]:
+                cum = cum + c
+                if bool(cum >= pos):
+                    return v
+            return pairs[-1][0]
+        lo = at(lo_pos)
+        hi = lo if not even else at(hi_pos)
+        return (lo + hi) / 2
+
+
 def _repeat(a, repeats, axis=None):
     a = _upgrade(a)
     if isinstance(repeats, (Q, SymArray)):
+        if axis is None and isinstance(repeats, SymArray) and repeats.ndim == 1:
+            return SymRepeat(a, repeats)
         raise Unsupported("np.repeat with data-dependent repeat counts (array length depends on data)")
     if ACTIVE["on"] and not isinstance(a, SymArray) and isinstance(a, (int, float)) and not isinstance(a, bool):
         # np.repeat(1, shape) / np.repeat(0, shape): keep numpy's dtype semantics (int array!)
@@ -220,8 +271,12 @@ def _repeat(a, repeats, axis=None):
 
 
 def _median(a, *args, **kw):
+    if isinstance(a, SymRepeat):
+        return a.median()
     a = _upgrade(a)
     if isinstance(a, SymArray):
+        if a.ndim == 1 and not args and not kw:
+            return SymRepeat(a, np.ones(a.shape[0], dtype=int)).median() if a.shape[0] else Q.NAN
         raise Unsupported("np.median on symbolic data")
     return np.median(a, *args, **kw)
 
